@@ -283,10 +283,13 @@ META = {
              "N<2 is refused by the constructor) without any assertion/bath-stack failure; its complete trace of kernel "
              "calls and side effects equals a closed form; results are filled once per step, in order, at the step's "
              "end time; row k+1 of the drives is installed for step k+1; the kernel sequence of a step is a palindrome "
-             "(symmetric second-order splitting). The machine model is tied to mps_backend_impl.py by an exact "
+             "(symmetric second-order splitting) and, over any monoid of propagators whose local kernels satisfy K(-t)K(t)=1 "
+             "(a premise: exact for exponentials, an idealisation for projected/truncated kernels), the step taken "
+             "backwards in time undoes the step (self-adjoint one-step method); the fuelled loop `while not finished: "
+             "progress()` of MPSBackend._run (source shape pinned) terminates with that trace. The machine model is tied to mps_backend_impl.py by an exact "
              "event-and-attribute trace correspondence with all kernels stubbed. Accuracy of the numerical kernels is "
              "NOT proved; it is validated end to end against an independent dense expm reference."),
     "note": ("Trusted: Coq kernel+VM; the hand-written machine model (validated by the trace correspondence on every "
              "run); the stubs' faithfulness to kernel signatures; scipy expm for the falsifier. Theorems closed under "
-             "the global context (no axioms)."),
+             "the global context (no axioms), except C02_step_time_symmetric which is stated over R (stdlib real axioms)."),
 }
